@@ -1,7 +1,7 @@
 #!/bin/sh
-# tools/confirm_mutant.sh <Cxx> <a|b>: confirm a seeded change in its scratch worktree (never in /repo):
+# tools/confirm_mutant.sh <Cxx> <a|b|c|d>: (MUT_BASE=/tmp/mut2 for the second round) confirm a seeded change in its scratch worktree (never in /repo):
 # suite passes with the change, demo fails with it and passes without it.
-id="$1"; x="$2"; wt=/tmp/mut/$id; out=/tmp/mut/out/$id/$x
+id="$1"; x="$2"; base="${MUT_BASE:-/tmp/mut}"; wt=$base/$id; out=$base/out/$id/$x
 cd "$wt" || exit 9
 git checkout -q -- . ; git apply "$out/patch.diff" || { echo '{"applies": false}' > "$out/confirm.json"; exit 9; }
 demo=$(ls "$out"/demo.py "$out"/test_demo.py 2>/dev/null | head -1)
